@@ -118,6 +118,14 @@ func NewConsumerGroup(parent, fanOutPath string, q FanOutQueue) (ConsumerGroup, 
 	if consumedSeq < ackSeq {
 		consumedSeq = ackSeq
 	}
+	// queue maybe lost its tail(consumer group's metadata is newer than queue's), cannot point beyond the queue.
+	appendedOfQueue := q.Queue().AppendedSeq()
+	if consumedSeq > appendedOfQueue {
+		consumedSeq = appendedOfQueue
+	}
+	if ackSeq > appendedOfQueue {
+		ackSeq = appendedOfQueue
+	}
 	// persist metadata
 	metaPage.PutUint64(uint64(consumedSeq), consumerGroupConsumedSeqOffset)
 	metaPage.PutUint64(uint64(ackSeq), consumerGroupAcknowledgedSeqOffset)
